@@ -20,6 +20,8 @@ RDIR = os.path.join(ROOT, "replay")
 
 # obligation-id regex -> (kani family, how to turn playback values into the replay argument)
 PAIRS = [
+    (re.compile(r"^kani::status_"), "status"),
+    (re.compile(r"^kani::flags_"), "flags"),
     (re.compile(r"^u2f::From<u8> for AuthenticationParameter::from::safety$"), "u2f_param_cex"),
     (re.compile(r"^u2f::.*::safety$"), "u2f_cex"),
     (re.compile(r"^u2f::.*Request::try_from::ensures#(register|authenticate|version)$"), "u2f_wf"),
